@@ -13,8 +13,9 @@ from core import Case, enc_call, guard, s2c, run_model, COQ, VERIF
 ID = "C12"
 PROOF_FILE = "Properties/C12.v"
 THEOREMS = ["C12_whole", "C12_last", "C12_last_is_final_window", "C12_local_global", "C12_revcomp", "C12_substring_test",
-            "C12_constructor"]
-CONE = ["Proofs/FilterProofs.v", "Filter.v", "Thresholds.v", "FilterSpec.v", "Spec.v", "Py.v"]
+            "C12_constructor", "C12_float_window_rule", "C12_float_short_rule"]
+from axioms import FLOAT_ALLOWED as ALLOWED_AXIOMS, FLOAT_PATTERNS as ALLOWED_AXIOM_PATTERNS  # noqa
+CONE = ["Proofs/FilterProofs.v", "Proofs/ThresholdProofs.v", "Filter.v", "Thresholds.v", "FilterSpec.v", "Spec.v", "Py.v"]
 MODEL_FUNCTIONS = ["LocalBioFilter.__init__", "LocalBioFilter.valid"]
 RULE = ("strings over ACGTNacgt- of length 0..3k (plus ACGT-only strings and reverse complements), configurations from a grid: "
         "k = 1..8, run limit absent / 1..k (incl. = k), GC range absent or from a grid with degenerate [x,x], [0,1], asymmetric "
@@ -24,7 +25,10 @@ RULE = ("strings over ACGTNacgt- of length 0..3k (plus ACGT-only strings and rev
         "checks: reverse complement, window conjunction.  non-trivial = string of length >= 2; distinct by payload")
 TRUSTED_BASE = [
     "Coq 8.16.1 kernel (coqc); vm_compute only in the non-vacuity example; no native_compute",
-    "Print Assumptions of every C12 theorem: Closed under the global context",
+    "Print Assumptions: Closed under the global context for the seven theorems about the filter logic; the two theorems about "
+    "the float -> integer threshold step (C12_float_window_rule, C12_float_short_rule) depend on axioms the standard library "
+    "declares: Floats.FloatAxioms (specification of primitive binary64), Uint63 specification axioms, and through Flocq / Reals "
+    "ClassicalDedekindReals.sig_not_dec, sig_forall_dec, functional_extensionality_dep, Classical_Prop.classic (harness/axioms.py)",
     "extraction (ExtrOcamlBasic only) + coq/extract/driver.ml + OCaml 4.13.1",
     "correspondence harness harness/core.py, harness/props/c12.py, harness/gen.py",
     "the integer thresholds handed to the model are floor/ceil of the same binary64 products the filter computes, evaluated "
